@@ -563,6 +563,12 @@ def rule_cover1(ctx: Ctx) -> RuleResult:
         if pa is None or pb is None:
             raise AnalysisError(f"COVER-1: parser of {a} or {b} not found")
         okb, howb = _plain_constructor_parser(pb)
+        oka, howa = _plain_constructor_parser(pa)
+        if okb and not oka:
+            rr.ob(pa.relpath, pa.qualname, norm(node)[:90], st, VIOLATED,
+                  f"{b} covers {a} on the ground that int(s) succeeding implies float(s) succeeds; but {a}'s parser is no longer the "
+                  f"plain constructor ({howa}): it can accept strings (\"0x1F\" with base 0) that {b} rejects", pa.node.lineno)
+            continue
         bases_ok = True
         for cname, base in ((a, "int"), (b, "float")):
             c = next((c for m in prog.modules.values() for c in m.all_classes if c.name == cname), None)
